@@ -461,3 +461,19 @@ pub fn fixture_model(dna: &[u8]) -> Option<(String, ModelGame)> {
 	}
 	Some((name.clone(), m))
 }
+
+/// gen_model, or (for a share of the stream values, when fixtures are available) a fixture-derived model.
+/// `finished` forces a Game End; `allow_fixture` is false where the caller needs generator-only features.
+pub fn gen_model_mixed(d: &mut Dna, cfg: &GenCfg, allow_fixture: bool) -> ModelGame {
+	let sel = d.u8();
+	if allow_fixture && sel >= 215 && fixture_count() > 0 && !cfg.newer {
+		let rest: Vec<u8> = (0..160).map(|_| d.u8()).collect();
+		if let Some((_, mut m)) = fixture_model(&rest) {
+			if cfg.finished && m.end == EndSpec::None {
+				m.end = EndSpec::One(crate::gen::gen_end_bytes(d, spec::end_size(m.v())));
+			}
+			return m;
+		}
+	}
+	crate::gen::gen_model(d, cfg)
+}
